@@ -4,37 +4,53 @@ from translators import tr_c01
 PID = "C01"
 CLAIM = True
 MANIFEST_TEXT = ("Lean 4 theorems over an arbitrary commutative ring with a conjugation map, for all shapes and entries: the eleven "
-                 "kernels mv..usmhv (run by a generic loop-nest interpreter from the KernelSig tables that tr_c01.py re-reads from "
-                 "densematrix.hh / diagonalmatrix.hh / transpose.hh on every run) equal their algebraic definitions (Hermitian ones with "
-                 "conj); matrix products, leftmultiply/rightmultiply(any), transposed, and the vector-space operations equal their "
-                 "definitions; diagonal, 1x1-scalar-view and transposed-view representations give the results of the full matrix with the "
-                 "same entries. The model is run against FieldMatrix/DynamicMatrix/DiagonalMatrix/ScalarMatrixView/transposed views and "
-                 "FieldVector/DynamicVector over int, double, complex<double> and GF(32003) on >= 40k cases per run, with naive loops as "
-                 "independent oracle and operands compared before/after every call.")
-MANIFEST_NOTE = ("Trusted: Lean kernel (+propext/Classical.choice/Quot.sound), tr_c01.py, fidelity of the hand-written product / "
-                 "vector-space models (differential run only), harness + driver parsing. Static FieldMatrix shapes: all of 1..4 x 1..4 for "
-                 "complex<double>, subsets covering all 16 shapes for int/double/GF (compile time). Harness compiled -O0 with "
-                 "ASan + UBSan(bounds, signed overflow, shifts, division, ...; without null/alignment/vptr/pointer-overflow/object-size) to "
-                 "keep ~1500 template instantiations compilable in about a minute. Floating-point rounding is outside the property (exact "
-                 "fields only); complex division only with divisors for which libgcc's Smith division is exact.")
-TECHNIQUE = "Lean 4 proof over loop-nest model + translator for kernel signature tables + differential correspondence with naive-loop oracle"
+                 "kernels mv..usmhv of DenseMatrix and of DiagonalMatrix equal their algebraic definitions (Hermitian ones with conj); the "
+                 "three-deep product loop nests (operator*, leftmultiply/rightmultiply, left/rightmultiplyany, multMatrix, "
+                 "multTransposedMatrix), multAssign(Transposed), transposed() and the elementwise vector loops (+=, -=, +=k, -=k, *=k, /=k, "
+                 "axpy, unary -, +, -, operator*, dot with the conjugated argument of dotproduct.hh) are run by small interpreters from "
+                 "signature tables that tr_c01.py re-reads from densematrix.hh / diagonalmatrix.hh / fmatrix.hh / dynmatrix.hh / "
+                 "densevector.hh / dotproduct.hh / transpose.hh on every run, and are proved equal to their definitions incl. result shape "
+                 "and frame; diagonal, 1x1-scalar-view, transposed-view and view-of-view representations give the results of the full "
+                 "matrix with the same entries (kernels, products, +=,-=,*=,/=,==), two representations with equal entries give equal "
+                 "kernel results, conversions FieldMatrix/DynamicMatrix <- any representation keep the entries. The model is run against "
+                 "FieldMatrix/DynamicMatrix/DiagonalMatrix/ScalarMatrixView/transposed views (also nested, also as left factor) and "
+                 "FieldVector/DynamicVector (mixed as kernel arguments) over int, double, complex<double> and GF(32003) on >= 40k cases "
+                 "per run, with naive loops as independent oracle and operands compared before/after every call.")
+MANIFEST_NOTE = ("Trusted: Lean kernel (+propext/Classical.choice/Quot.sound), tr_c01.py, fidelity of the hand-written parts of the "
+                 "model (1x1 / size-1 specialisations, FieldMatrix/FieldVector operators with a scalar, FieldMatrix +/-, row-wise "
+                 "delegation of the DenseMatrix compound assignments, DiagonalMatrix*DiagonalMatrix, conversions; differential run only), "
+                 "harness + driver parsing. Static FieldMatrix shapes: all of 1..4 x 1..4 for complex<double>, subsets covering all 16 "
+                 "shapes for int/double/GF; views of views, a view as left factor and mixed vector kinds only for the non-square shapes "
+                 "with rows+cols >= 5 (compile time). Harness compiled -O0 with ASan (heap; stack variables not instrumented) + "
+                 "_GLIBCXX_ASSERTIONS (exact index checks of std::array / std::vector) + UBSan(bounds, signed overflow, shifts, "
+                 "division, ...; without null/alignment/vptr/pointer-overflow/object-size). Floating-point rounding is outside the "
+                 "property (exact fields only); complex division only with divisors for which libgcc's Smith division is exact. "
+                 "Aliasing between the written object and an argument (A.rightmultiply(A), A.umv(x,x)) is outside the model.")
+TECHNIQUE = "Lean 4 proof over loop-nest interpreters + translator for kernel / product / elementwise-loop signature tables + differential correspondence with naive-loop oracle"
 TRANSLATORS = [tr_c01.translate]
 HARNESS = dict(
     sources=["cxx_c01.cc"],
     repo_sources=["dune/common/exceptions.cc", "dune/common/stdstreams.cc"],
     # many template instantiations: -O0 and a trimmed UBSan check set keep the sanitized compile near one minute
-    flags=["-O0", "-fno-sanitize=null,alignment,vptr,pointer-overflow,object-size,nonnull-attribute,returns-nonnull-attribute"],
+    # ASan without stack-variable instrumentation (a third of the compile time); index overflows of the stack-allocated
+    # std::array storage of FieldVector / FieldMatrix are caught exactly by the libstdc++ assertions instead
+    flags=["-O0", "-g1", "-fno-sanitize=null,alignment,vptr,pointer-overflow,object-size,nonnull-attribute,returns-nonnull-attribute",
+           "--param", "asan-stack=0", "-D_GLIBCXX_ASSERTIONS"],
     libs=[],
 )
 RULE = ("cases: random field K in {int, double, complex<double>, GF(32003)} x operation (11 kernels; operator* on pairs of "
-        "representations; leftmultiply/rightmultiply(any), multMatrix, multTransposedMatrix; transposed/transpose/asDense; matrix "
-        "+=,-=,+,-,*=,/=,*s,s*,/s,axpy,unary -,==,!=; vector +=,-=,+,-,unary -,+=s,-=s,*=,/=,*s,s*,/s,axpy,==,!=,operator*,dot, free "
-        "dot/dotT, FieldVector<K,1>/scalar mixes) x representation(s) in {FieldMatrix r x c (1..4), DynamicMatrix (1..6), DiagonalMatrix, "
-        "ScalarMatrixView, transposed view / transposed copy of these; FieldVector, DynamicVector, plain scalar} x small-integer "
-        "entries biased to 0, +-1 (GF: 0, 1, p-1, p-2, small, random); distinct = distinct op lines; non-trivial = the oracle compared a "
-        "computed result with the definition (divisions outside the exact domain are trivial)")
+        "representations incl. a transposed view as left factor and views of views; leftmultiply/rightmultiply(any), multMatrix, "
+        "multTransposedMatrix, multAssign(Transposed)/mult/multTransposed; transposed/transpose/asDense; conversions FieldMatrix/"
+        "DynamicMatrix <- any representation and FieldVector <-> DynamicVector; matrix +=,-=,+,-,*=,/=,*s,s*,/s,axpy,unary -,==,!=; "
+        "FieldMatrix<K,1,1> +-scalar, scalar+-, +=s, -=s, conversion; vector +=,-=,+,-,unary -,+=s,-=s,*=,/=,*s,s*,/s,axpy,==,!=,"
+        "operator*,dot, free dot/dotT, FieldVector<K,1>/scalar mixes incl. ==,!=,<,<=,>,>= and conversion) x representation(s) in "
+        "{FieldMatrix r x c (1..4), DynamicMatrix (1..6), DiagonalMatrix, ScalarMatrixView, transposed view / transposed copy / view "
+        "of a view of these; FieldVector, DynamicVector, plain scalar} x small-integer entries biased to 0, +-1 (GF: 0, 1, p-1, p-2, "
+        "small, random); distinct = distinct op lines; non-trivial = the oracle compared a computed result with the definition "
+        "(divisions outside the exact domain are trivial)")
 ASSUMPTIONS = [
-    "the kernel tables (target/row/column/x index, update operator, alpha, conjugation, loop bounds) are regenerated from the source by tools/translators/tr_c01.py; the product / leftmultiply / transposed / vector-space parts of lean/DuneVerif/Model/C01.lean are hand-written and tied to the code by this differential run",
+    "the signature tables of the kernels, of the product / transposition loop nests, of multAssign(Transposed) and of the elementwise DenseVector loops and dot products are regenerated from the source by tools/translators/tr_c01.py (a statement outside its grammar makes the obligation fail); the 1x1 / size-1 specialisations, the FieldMatrix/FieldVector operators with a scalar, FieldMatrix +/-, the row-wise delegation of the DenseMatrix compound assignments, DiagonalMatrix*DiagonalMatrix and the conversions are hand-written in lean/DuneVerif/Model/C01.lean and Driver/C01.lean and tied to the code by this differential run",
+    "an argument never aliases the object an operation writes to (value semantics of the model; the code asserts this for mv/mtv only)",
     "entries are small integers, so int does not overflow and double / complex<double> arithmetic is exact; floating-point rounding is not part of the property",
     "division is exercised only where it is exact (divisible operands; complex divisors for which libgcc's Smith algorithm is exact; non-zero divisors in GF(32003))",
     "static FieldMatrix shapes per field type: complex<double> all of 1..4 x 1..4; int {11,12,21,22,23,32,33,34,43,44}; double {11,13,31,22,24,42,33}; GF {11,12,21,14,41,22,33,44}",
